@@ -24,12 +24,61 @@ def _is_tid(v):
     return v.op == "v" and str(v.args[0]).startswith("tid#")
 
 
+def _is_team_size(v):
+    return v.op == "v" and (str(v.args[0]).startswith("nthreads#") or str(v.args[0]).startswith("maxthreads#"))
+
+
+class _Ev(object):
+    """an event with a substitution applied (team size fixed, small concrete loops and thread ids expanded)"""
+    def __init__(self, qvars, guards, idx):
+        self.qvars, self.guards, self.idx = qvars, guards, idx
+
+
+def _expand(e, T):
+    """Instances of event e for team size T: every team-size variable := T, thread ids and loops whose range is then concrete and short are enumerated;
+    returns a list of _Ev whose remaining qvars are the symbolic-range loops."""
+    sub0 = {}
+    allt = [tm.lift(e.idx)] + [tm.lift(g) for g in e.guards] + [tm.lift(x) for q in e.qvars for x in q[1:3]]
+    for t in allt:
+        for u in tm.subterms(t).values():
+            if _is_team_size(u) and T is not None:
+                sub0[u] = tm.lift(T)
+    nfc = NF()
+
+    def conc(t):
+        try:
+            r = nfc.rf_to_term(nfc.nf(t))
+        except NFError:
+            return None
+        return int(r.args[0]) if r.op == "c" and r.args[0].denominator == 1 else None
+    out = [(dict(sub0), [])]
+    for (v, lo, hi, step) in e.qvars:
+        nxt = []
+        for sub, rest in out:
+            lo_, hi_ = tm.substitute(tm.lift(lo), sub), tm.substitute(tm.lift(hi), sub)
+            # idiv with concrete arguments folds in the normal form only if exact; evaluate small concrete ranges numerically
+            lc, hc = conc(lo_), conc(hi_)
+            if lc is not None and hc is not None and hc - lc <= 32 and tm.lift(step) is tm.ONE and (T is not None or _is_tid(v)):
+                for k in range(lc, hc):
+                    s2 = dict(sub)
+                    s2[v] = tm.lift(k)
+                    nxt.append((s2, rest))
+            else:
+                nxt.append((sub, rest + [(v, lo_, hi_, step)]))
+        out = nxt
+    res = []
+    for sub, rest in out:
+        res.append(_Ev([(v, tm.substitute(lo, sub), tm.substitute(hi, sub), st) for v, lo, hi, st in rest], [tm.substitute(tm.lift(g), sub) for g in e.guards], tm.substitute(tm.lift(e.idx), sub)))
+    return res
+
+
 def _event_condition(e, targets, tgt_idx):
-    """(condition term, [(tid var, nthreads term)]) or None when no instantiation scheme applies.  Two sufficient schemes, OR-ed when both apply:
+    """condition term or None when no instantiation scheme applies.  Two sufficient schemes, OR-ed when both apply:
        positional   loop variable i of the event := target variable i (same number of loops as target dimensions, unit steps);
        solved       one target dimension, one loop whose variable enters the index with coefficient one: v := target index - (index - v)."""
-    team = [(q[0], q[2]) for q in e.qvars if _is_tid(q[0])]
     loops = [q for q in e.qvars if not _is_tid(q[0])]
+    if any(_is_tid(q[0]) for q in e.qvars):
+        return None
     if any(tm.lift(q[3]) is not tm.ONE for q in loops):
         return None
     subs = []
@@ -44,6 +93,8 @@ def _event_condition(e, targets, tgt_idx):
                 subs.append({v: tm.lift(tgt_idx) - rest})
         except NFError:
             pass
+    if len(loops) == 0:
+        subs.append({})
     alts = []
     for sub in subs:
         conds = []
@@ -56,7 +107,7 @@ def _event_condition(e, targets, tgt_idx):
         alts.append(tm.mk_and(*conds))
     if not alts:
         return None
-    return tm.mk_or(*alts), team
+    return tm.mk_or(*alts)
 
 
 _INT_FNS = {("fn", "idiv"): lambda a, b: int(a) // int(b) if (int(a) >= 0) == (int(b) > 0) or int(a) % int(b) == 0 else -((-int(a)) // int(b)),
@@ -130,14 +181,17 @@ def coverage(events, targets, tgt_idx, hyps, timeout=10.0, teams=TEAMS):
     H = list(hyps)
     for t, lo, hi in targets:
         H += [tm.mk_le(tm.lift(lo), t), tm.mk_lt(t, tm.lift(hi))]
-    plain, teamed = [], []
-    for e in events:
-        c = _event_condition(e, targets, tgt_idx)
-        if c is None:
-            continue
-        (teamed if c[1] else plain).append(c)
-    if not plain and not teamed:
-        return "undecided", "engine", "no store event has a loop structure the instantiation schemes apply to", None
+    teamed = any(_is_tid(q[0]) for e in events for q in e.qvars) or any(_is_team_size(u) for e in events for t in [tm.lift(e.idx)] + [tm.lift(g) for g in e.guards] + [tm.lift(x) for q in e.qvars for x in q[1:3]]
+                                                                      for u in tm.subterms(t).values())
+
+    def team_vars():
+        vs = set()
+        for e in events:
+            for t in [tm.lift(e.idx)] + [tm.lift(g) for g in e.guards] + [tm.lift(x) for q in e.qvars for x in q[1:3]]:
+                for u in tm.subterms(t).values():
+                    if _is_team_size(u):
+                        vs.add(u)
+        return vs
 
     def refutation(v, T):
         w = dict(v.witness or {})
@@ -148,10 +202,8 @@ def coverage(events, targets, tgt_idx, hyps, timeout=10.0, teams=TEAMS):
             except (ValueError, ZeroDivisionError, TypeError):
                 pass
         if T is not None:
-            for e in events:
-                for q in e.qvars:
-                    if _is_tid(q[0]) and tm.lift(q[2]).op == "v":
-                        env[tm.lift(q[2]).args[0]] = T
+            for u in team_vars():
+                env[u.args[0]] = T
             w["omp_team_size"] = T
         try:
             tv = int(tm.evaluate(tm.lift(tgt_idx), dict(_INT_FNS, **{k: v_ for k, v_ in env.items()})))
@@ -164,30 +216,24 @@ def coverage(events, targets, tgt_idx, hyps, timeout=10.0, teams=TEAMS):
         if conf is False:
             return "undecided", v.backend, "the instantiation schemes fail on an input where the element is in fact written (incomplete, not a counterexample)", None
         return "undecided", v.backend, "solver model not confirmable by enumeration (tables or data-dependent terms)", None
-    if not teamed:
-        v = vc.decide_valid(H, tm.mk_or(*[c for c, _ in plain]), timeout)
-        if v.status == "refuted":
-            return refutation(v, None)
-        return v.status, v.backend, v.detail, v.witness
-    for T in teams:
-        disj = [c for c, _ in plain]
-        for c, team in teamed:
-            assigns = [{}]
-            for tid, nth in team:
-                assigns = [dict(list(a.items()) + [(tid, tm.lift(k))]) for a in assigns for k in range(T)]
-            for a in assigns:
-                m = dict(a)
-                for tid, nth in team:
-                    if tm.lift(nth).op == "v":
-                        m[tm.lift(nth)] = tm.lift(T)
-                disj.append(tm.substitute(c, m))
-        HT = [tm.substitute(h, {tm.lift(nth): tm.lift(T) for _, team in teamed for _, nth in team if tm.lift(nth).op == "v"}) for h in H]
+    for T in (teams if teamed else (None,)):
+        disj = []
+        for e in events:
+            for inst in _expand(e, T):
+                c = _event_condition(inst, targets, tgt_idx)
+                if c is not None:
+                    disj.append(c)
+        if not disj:
+            return "undecided", "engine", "no store event has a loop structure the instantiation schemes apply to", None
+        HT = [tm.substitute(tm.lift(h), {u: tm.lift(T) for u in team_vars()}) for h in H] if T is not None else H
         v = vc.decide_valid(HT, tm.mk_or(*disj), timeout)
         if v.status == "refuted":
             return refutation(v, T)
         if v.status != "discharged":
-            return "undecided", v.backend, "team size %d: %s" % (T, v.detail), None
-    return "bounded", "smt", "every team size in %s" % (list(teams),), None
+            return "undecided", v.backend, ("team size %d: " % T if T is not None else "") + str(v.detail), None
+    if teamed:
+        return "bounded", "smt", "every team size in %s" % (list(teams),), None
+    return "discharged", v.backend, v.detail, None
 
 
 def record(ctx, name, events, targets, tgt_idx, hyps, fq, replay=None, teams=TEAMS):
@@ -223,6 +269,11 @@ def team_bounds(ctx, name, events, extent, hyps, fq, teams=TEAMS):
     for T in teams:
         for e in events:
             for sub in _team_instances(e, T):
+                # team-size variables that are not attached to a thread id (omp_get_max_threads() read outside the region) take the same value
+                for t_ in [tm.lift(e.idx)] + [tm.lift(g_) for g_ in e.guards] + [tm.lift(x_) for q in e.qvars for x_ in q[1:3]]:
+                    for u in tm.subterms(t_).values():
+                        if _is_team_size(u) and u not in sub:
+                            sub[u] = tm.lift(T)
                 idx = tm.substitute(tm.lift(e.idx), sub)
                 HT = [tm.substitute(tm.lift(h), sub) for h in hyps] + _ranges(e, sub)
                 r_, env, be = intarith.check_sat_int(HT + [tm.mk_not(tm.mk_and(tm.mk_le(tm.ZERO, idx), tm.mk_lt(idx, tm.substitute(tm.lift(extent), sub))))], ctx.timeout)
